@@ -33,6 +33,7 @@ func checkC07(w *World, r *Report) {
 	r.Explanation = "Decides the table/wiring half of C07 for every input string: (R07.1) the names escape and e are registered to the same function; (R07.2) that function returns exactly html.EscapeString(toString(input)) with no call between the library routine and the return (no trimming, truncation or un-escaping); (R07.3) every hand-written escape table (the fallback in ApplyFilter) has an arm for each of & < > \" ' whose replacement, decoded by html.UnescapeString inside the checker, is that character, is a well-formed reference and contains no raw special character, and whose default arm writes the rune unchanged. html.EscapeString itself is trusted. Not decided: stringification of non-string values (value-level). (R07.5) every pass of a loop that walks a filter chain applies the item or leaves the function, so `v|e|e` escapes twice."
 	r.Explanation += " Rules added in later rounds: (R07.6) the names escape/e are never rebound; (R07.7) an apply node writes only the converted result of applying its filter. (R07.8) stringifiers return strings unchanged. (R07.5) loops that copy a chain keep every item."
 	r.Explanation += " Round 9: (R07.10) the in-text interpolator sees template source only."
+	r.Explanation += " Round 10: (R07.11) all questions put to the policy are formed alike."
 	r.RuleText = "obligation = one table entry / one binding / one return; non-trivial = table arms evaluated with the HTML decoder and the return-flow check"
 	r.Trusted = []string{"html.EscapeString replaces exactly & ' < > \" (Go standard library)", "html.UnescapeString used as the independent decoder inside the checker"}
 
